@@ -27,12 +27,26 @@ func ruleR12_1(w *World, r *Report) {
 		} else {
 			bad := ""
 			n := 0
-			for _, c := range callsIn(fn) {
-				if !has(handlerSteps, calleeName(c)) {
-					continue
+			d := deepOf(fn)
+			d.each(func(x dins) {
+				c, ok := x.in.(*ssa.Call)
+				if !ok || !isStorageCall(c) {
+					return
+				}
+				for a := x.n; a != nil; a = a.parent {
+					if a.site != nil {
+						if _, isDefer := a.site.(*ssa.Defer); isDefer {
+							return
+						}
+					}
 				}
 				n++
-				paths, _ := reachingLits(fn, nil, c.(ssa.Instruction))
+				// the decision is taken in process itself: look at the root position of the call
+				rootPos := lift(x, d.root)
+				paths, _ := reachingLits(fn, nil, rootPos)
+				if len(paths) == 0 {
+					bad = calleeName(c)
+				}
 				for _, p := range paths {
 					held := false
 					for _, l := range p {
@@ -44,7 +58,7 @@ func ruleR12_1(w *World, r *Report) {
 						bad = calleeName(c)
 					}
 				}
-			}
+			})
 			// the failure edge must leave with an error recorded in the handler
 			errSet := false
 			for _, st := range storesTo(fn, ".err") {
@@ -59,8 +73,8 @@ func ruleR12_1(w *World, r *Report) {
 					}
 				}
 			}
-			r.Check(bad == "" && n == len(handlerSteps) && errSet, "PushPullHandler.process/lock result consulted", u.Pos(try.Pos()), "all steps on the success edge; the failure edge records an error",
-				fmt.Sprintf("step %q runs on a path where TryLock was not successful, or the failure edge records no error (steps found %d, error recorded %v)", bad, n, errSet))
+			r.Check(bad == "" && n >= 3 && errSet, "PushPullHandler.process/lock result consulted", u.Pos(try.Pos()), fmt.Sprintf("all %d storage accesses below process on the success edge; the failure edge records an error", n),
+				fmt.Sprintf("the storage access %q runs on a path where TryLock was not successful, or the failure edge records no error (storage accesses found %d, error recorded %v)", bad, n, errSet))
 		}
 	}
 	if fn := u.Fn(pService, "OrdaService", "PatchDocument"); fn == nil {
